@@ -10,6 +10,7 @@ No Mathlib imports.
 import Vibrato.Model.CharDef
 import Vibrato.Model.MatrixDef
 import Vibrato.Model.SimpleCsv
+import Vibrato.Model.LexCsv
 
 namespace Vibrato
 
@@ -53,6 +54,15 @@ structure DictM where
 
 def DictM.cost (D : DictM) (r l : Nat) : Int := D.conn.getD (r * D.numLeft + l) 0
 
+/-- `Lexicon::parse_csv` (faithful port, `Model/LexCsv.lean`) as rows. -/
+def parseLexCsv (fx : Fixes) (bytes : List UInt8) : Outcome (List SimpleCsv.Row) :=
+  match LexCsv.parseCsv fx.f8 bytes with
+  | .ok es => .ok (es.map fun e =>
+      { surface := e.surface, left := e.leftId, right := e.rightId, cost := e.wordCost,
+        feature := e.feature })
+  | .err => .err
+  | .panic => .panic
+
 /-- code points of a UTF-8 byte string (`none` when invalid) -/
 def codePoints (bs : List UInt8) : Option (List Nat) :=
   (Text.decodeLine bs).map fun s => s.toList.map Char.toNat
@@ -81,10 +91,11 @@ def unkOfRows (P : CharProp) (rows : List SimpleCsv.Row) : Option (List UnkEntry
 
 /-- `SystemDictionaryBuilder::from_readers` (matrix connector). Order of the Rust
 code: lex.csv, matrix.def, char.def, unk.def, then `build` (trie, verify). -/
-def buildMatrixDict (lex matrix chardef unk : List UInt8) : Outcome DictM :=
-  match SimpleCsv.parse lex with
-  | none => .err
-  | some lrows =>
+def buildMatrixDict (fx : Fixes) (lex matrix chardef unk : List UInt8) : Outcome DictM :=
+  match parseLexCsv fx lex with
+  | .err => .err
+  | .panic => .panic
+  | .ok lrows =>
     match MatrixDef.parse matrix with
     | .err => .err
     | .panic => .panic
@@ -93,9 +104,10 @@ def buildMatrixDict (lex matrix chardef unk : List UInt8) : Outcome DictM :=
       | .err => .err
       | .panic => .panic
       | .ok P =>
-        match SimpleCsv.parse unk with
-        | none => .err
-        | some urows =>
+        match parseLexCsv fx unk with
+        | .err => .err
+        | .panic => .panic
+        | .ok urows =>
           match unkOfRows P urows with
           | none => .err
           | some U =>
@@ -112,18 +124,20 @@ def buildMatrixDict (lex matrix chardef unk : List UInt8) : Outcome DictM :=
 
 /-- Same builder when the connector is given by its cost table (raw/dual
 connectors are modelled separately, `Model/RawConnector.lean`). -/
-def buildDictWithConn (lex chardef unk : List UInt8) (numRight numLeft : Nat) (conn : List Int) :
-    Outcome DictM :=
-  match SimpleCsv.parse lex with
-  | none => .err
-  | some lrows =>
+def buildDictWithConn (fx : Fixes) (lex chardef unk : List UInt8) (numRight numLeft : Nat)
+    (conn : List Int) : Outcome DictM :=
+  match parseLexCsv fx lex with
+  | .err => .err
+  | .panic => .panic
+  | .ok lrows =>
     match CharDef.parse chardef with
     | .err => .err
     | .panic => .panic
     | .ok P =>
-      match SimpleCsv.parse unk with
-      | none => .err
-      | some urows =>
+      match parseLexCsv fx unk with
+      | .err => .err
+      | .panic => .panic
+      | .ok urows =>
         match unkOfRows P urows with
         | none => .err
         | some U =>
@@ -201,9 +215,10 @@ def DictM.resetUser (fx : Fixes) (D : DictM) (csv : Option (List UInt8)) : Outco
   match csv with
   | none => .ok { D with user := none }
   | some bytes =>
-    match (SimpleCsv.parse bytes).bind lexOfRows with
-    | none => .err
-    | some u =>
+    match (parseLexCsv fx bytes).bind (fun rows => Outcome.ofOption (lexOfRows rows)) with
+    | .err => .err
+    | .panic => .panic
+    | .ok u =>
       if fx.f2b ∧ ¬ paramsInRange (u.entries.map (·.param)) D.numLeft D.numRight then .err
       else
         let mapped : Option LexM := match D.mapper with
